@@ -1,15 +1,26 @@
 (* Props/C14.v — property C14: JSON serialisation is faithful:
    jsonParse(jsonStringify(v)) equals v.  ONLY statements; every proof is `exact <lemma of Proofs/C14*.v>`.
    Model: Model/Json.v (encode = sort_keys, CPython ensure_ascii escaping, compact/indented layout,
-   the clean-up pass as a scanner; decode = RFC 8259 reader).  The scanner is pinned to the regex
-   REGENERATED from value.py by the first theorem (and compared with it on every case of the check).
+   the clean-up pass as a scanner; decode = RFC 8259 reader).  The scanner is PROVED equal, on every text, to the
+   regex REGENERATED from value.py run through the regex engine (first theorem; Proofs/C14rx.v), so every theorem
+   below also holds for [encode_re], the text as the code computes it (block "_re" at the end).
    Domain (wf): number tokens of the JSON grammar (every CPython repr of a finite number),
    strings and keys of Unicode scalar values (no surrogate code points); any nesting, any indent. *)
 From BS Require Import Model.Base Model.Regex Model.Json Model.JsonRe Gen.Regexes
-  Proofs.C14a Proofs.C14b Proofs.C14c Proofs.C14.
+  Proofs.C14a Proofs.C14b Proofs.C14c Proofs.C14 Proofs.C14rx.
 
-(* the clean-up regex of value.py, as regenerated now, and the scanner below are the same function on
-   all 19608 strings of length <= 5 over {quote, backslash, point, zero, comma, a, newline} *)
+(* THE TIE IS A THEOREM: for EVERY text s, value.py's clean-up regex (as regenerated now, incl. its look-ahead) applied by
+   re.sub with the callback `m.group(1) or ''` through the engine of Model/Regex.v  =  the scanner.  Stated about the
+   generated constant R_VALUE_JSON_NUMBER_CLEANUP: a change of the pattern in value.py breaks the proof. *)
+Theorem C14_regex_is_scanner : forall s, cleanup_re s = Some (cleanup s).
+Proof. exact cleanup_re_is_cleanup. Qed.
+Print Assumptions C14_regex_is_scanner.
+Theorem C14_encode_re_is_encode : forall indent v, encode_re indent v = Some (encode indent v).
+Proof. exact encode_re_is_encode. Qed.
+Print Assumptions C14_encode_re_is_encode.
+
+(* FORMER PIN (now an instance of C14_regex_is_scanner; kept because it fails first, by computation, when the pattern
+   changes): the same on all 19608 strings of length <= 5 over {quote, backslash, point, zero, comma, a, newline} *)
 Theorem C14_regex_pinned_to_scanner :
   forallb cleanup_agree (all_strings [34; 92; 46; 48; 44; 97; 10]%N 5) = true.
 Proof. exact cleanup_regex_is_scanner_small. Qed.
@@ -72,6 +83,27 @@ Theorem C14_cleanup_on_number : forall n r, num_ok n = true -> look_ok r = true 
   cleanup (num_text n ++ r) = num_text (strip_num n) ++ cleanup r.
 Proof. exact scan_num. Qed.
 Print Assumptions C14_cleanup_on_number.
+
+(* ---- the same theorems about [encode_re] / [cleanup_re]: the pass RUN BY THE ENGINE on the regenerated regex ---- *)
+Theorem C14_roundtrip_re : forall indent v, wf v = true -> exists t, encode_re indent v = Some t /\ decode t = DecOk (canon v).
+Proof. exact roundtrip_re. Qed.
+Print Assumptions C14_roundtrip_re.
+Theorem C14_injective_re : forall indent v1 v2, wf v1 = true -> wf v2 = true ->
+  encode_re indent v1 = encode_re indent v2 -> canon v1 = canon v2.
+Proof. exact encode_re_injective. Qed.
+Print Assumptions C14_injective_re.
+Theorem C14_text_is_layout_of_canon_re : forall indent v, wf v = true ->
+  encode_re indent v = Some (render (norm_indent indent) 0 (canon v)).
+Proof. exact encode_re_is_render_canon. Qed.
+Print Assumptions C14_text_is_layout_of_canon_re.
+Theorem C14_strings_untouched_re : forall s r,
+  exists t, cleanup_re r = Some t /\ cleanup_re (esc_string s ++ r) = Some (esc_string s ++ t).
+Proof. exact cleanup_re_string. Qed.
+Print Assumptions C14_strings_untouched_re.
+Theorem C14_cleanup_on_number_re : forall n r, num_ok n = true -> look_ok r = true ->
+  exists t, cleanup_re r = Some t /\ cleanup_re (num_text n ++ r) = Some (num_text (strip_num n) ++ t).
+Proof. exact cleanup_re_num. Qed.
+Print Assumptions C14_cleanup_on_number_re.
 
 (* the guard is needed: two adjacent surrogate code points (not a Unicode string; constructible with
    stringFromCharCode(55357, 56832)) encode like the single astral character and cannot come back *)
